@@ -70,6 +70,12 @@ use tonic::transport::Channel;
 
 static START: std::sync::OnceLock<Instant> = std::sync::OnceLock::new();
 
+static STALL_UNTIL_US: std::sync::atomic::AtomicU64 = std::sync::atomic::AtomicU64::new(0);
+
+fn mono_us() -> u64 {
+    start().elapsed().as_micros() as u64
+}
+
 fn start() -> &'static Instant {
     START.get_or_init(Instant::now)
 }
@@ -285,6 +291,16 @@ impl Client {
         let reader = tokio::spawn(async move {
             let reason;
             loop {
+                // a slow consumer: while a stall is requested the inbound stream is not polled (HTTP/2 flow control then
+                // pushes back on the server)
+                loop {
+                    let until = STALL_UNTIL_US.load(std::sync::atomic::Ordering::SeqCst);
+                    let now = mono_us();
+                    if now >= until {
+                        break;
+                    }
+                    tokio::time::sleep(Duration::from_micros((until - now).min(50_000))).await;
+                }
                 match inbound.message().await {
                     Ok(Some(p)) => {
                         let m = payload_to_json(&p);
@@ -410,6 +426,12 @@ async fn main_loop(args: &Args) -> anyhow::Result<()> {
             "ping" => answer(&id, json!({"ok": true})),
             "sleep" => {
                 tokio::time::sleep(Duration::from_millis(cmd.get("ms").and_then(|x| x.as_u64()).unwrap_or(0))).await;
+                answer(&id, json!({"ok": true}));
+            }
+            "stall_reads" => {
+                // all bi-streams of this process stop reading for `ms` milliseconds (answers at once)
+                let ms = cmd.get("ms").and_then(|x| x.as_u64()).unwrap_or(0);
+                STALL_UNTIL_US.store(mono_us() + ms * 1000, std::sync::atomic::Ordering::SeqCst);
                 answer(&id, json!({"ok": true}));
             }
             "connect" => {
